@@ -61,6 +61,9 @@ def gen_session(rng):
         if st == "linfixed":
             rec["alpha"] = str(Fraction(rng.randint(4, 16), 16))
         ops.append(rec)
+    if rng.random() < 0.4:
+        # a resampling that leaves working and reference grids not nested in each other
+        ops.append({"op": "interp", "method": rng.choice(["linear", "constant"]), "n": rng.randint(3, 17)})
     ops.append(W.gen_domain_op(rng, ["trunc_v", "trunc_v", "trunc_i"]))
     if rng.random() < 0.3:
         ops.append(W.gen_domain_op(rng, ["trunc_v", "trunc_i"]))
@@ -187,7 +190,7 @@ def oracle(c, io):
         elif op["op"] == "trunc_i":
             f = op["_line"].split(" ")
             a = int(f[2])
-            b = None if f[3] == "none" else int(f[3])
+            b = len(prev["x"]) if f[3] == "none" else int(f[3])     # an omitted stop is the length of the WORKING series
             for k in W.KEYS[:4]:
                 if s[k] != prev[k][a:b]:
                     return f"truncate_by_index({a}, {b}): {k} is not the Python slice"
